@@ -363,6 +363,18 @@ def bind_loop(ev: Evaluator, fr, loop: ast.For, env: Dict[str, Any]) -> Optional
         bindings = {}
         count = None
         for e_t, a_node in zip(tgt.elts, it.args):
+            if isinstance(a_node, ast.Call) and isinstance(a_node.func, ast.Name) and a_node.func.id == "range" and not a_node.keywords and 1 <= len(a_node.args) <= 2:
+                ra_ = [fr.expr(x_, env) for x_ in a_node.args]
+                if not all(isinstance(x_, Rat) for x_ in ra_):
+                    return None
+                rlo, rhi = (Rat.const(0), ra_[0]) if len(ra_) == 1 else (ra_[0], ra_[1])
+                bindings[e_t.id] = rlo.add(idx)
+                ln = rhi.sub(rlo)
+                if count is None:
+                    count = ln
+                elif not count.equals(ln):
+                    return None
+                continue
             v = fr.expr(a_node, env)
             cols = v.items if (isinstance(v, Vec) and v.kind == "point") else [v]
             els = []
